@@ -171,6 +171,12 @@ def run(prog, rep, tier):
     nd = st.get("noise_distributions")
     rep.check("NOISE.kept", nd in (("ext", "copy.deepcopy", (("param", "noise_distributions"),), ()), ("ext", "list", (("param", "noise_distributions"),), ())), fwhere(fc),
               "noise distributions stored in the given order", "noise distributions are stored as %s" % fmt(nd or ("const", None)))
+    # the stored ordering depends on the matrix through its zero pattern only (inherits C03's analysis)
+    P, objs = pattern_entries(prog, rep, [(AN + "__init__", "A")])
+    obj = objs.get(AN + "__init__")
+    if obj is not None and "ordering" in obj.attrs:
+        rep.check("PAT.ordering", PT.lvl_of(obj.attrs["ordering"]) <= PT.PAT, fwhere(fc), "the generation order is pattern-only",
+                  "the generation order depends on weight values (negative or cancelling weights reorder or drop variables)")
     rep.require_count("CASES", 1)
     rep.require_count("ORDER", 3)
     rep.tables["oracle"] = {"do": ["DO"], "shift only": ["ASSIGN", "NOISE0", "SHIFT"], "noise only": ["ASSIGN", "NEWNOISE"], "none": ["ASSIGN", "NOISE0"]}
